@@ -205,6 +205,20 @@ class C10(core.Check):
                                 problems.append(('stale-exit-order', strategy.index, {'via': via, 'order': [o.type, o.qty, o.price], 'declaration': rows}))
                                 return
                             free.remove(m)
+                        # conversely: every row of the latest declaration was submitted as an order of this trade (it may
+                        # have been executed since)
+                        opened = getattr(strategy.position, 'opened_at', None)
+                        mine = [o for o in store.orders.get_orders(strategy.exchange, strategy.symbol)
+                                if o.submitted_via == via and not o.is_canceled and (opened is None or o.created_at >= opened)]
+                        for r in rows:
+                            m = next((o for o in mine if abs(abs(r[0]) - abs(o.qty)) < 1e-9 and
+                                      (abs(r[1] - o.price) < 1e-9 or o.type == 'MARKET')), None)
+                            if m is None:
+                                problems.append(('declared-exit-without-order', strategy.index,
+                                                 {'via': via, 'row': r, 'declaration': rows,
+                                                  'orders_of_trade': [[o.type, o.qty, o.price, o.status] for o in mine]}))
+                                return
+                            mine.remove(m)
                 else:
                     ro = [o for o in act if o.reduce_only]
                     if ro:
